@@ -157,6 +157,44 @@ let neighbours x y = leaf_diffs x y = Some 1 || is_swap x y
 
 let kv_of (l : leafv value list) = List.mapi (fun i v -> (v, nat_of_int i)) l
 
+(* ------------------------------------------------------------------ C16: objects with a history *)
+(* the history the C++ driver performs for CODE, as operations of the model's history machine on the members of a;
+   the model has no notion of "which copy": a copy is the same member list *)
+let history_ops (code : string) (b : leafv value) : leafv hop list =
+  let mb = members b in
+  let first = (match code.[0] with 'n' -> [] | 'd' -> [HHash] | 's' -> [HHash; HHash] | _ -> raise Bad) in
+  (match code.[1] with 'o' | 'b' | 'a' -> () | _ -> raise Bad);
+  let first = if code.[1] = 'b' then [] else first in     (* a copy made before the first use was never hashed *)
+  let how = (match code.[2] with
+             | 'm' | 't' -> List.mapi (fun i v -> HSet (nat_of_int i, v)) mb
+             | 'w' | 'v' -> [HAssign mb]
+             | _ -> raise Bad) in
+  (match code.[3] with '-' | 'c' | 'k' -> () | _ -> raise Bad);
+  first @ how @ [HHash]
+let rec last = function [x] -> x | _ :: r -> last r | [] -> raise Bad
+let history_model code sa sb sf =
+  if String.length code <> 4 then raise Bad;
+  let a = parse_value sa and b = parse_value sb and fill = parse_values sf in
+  (match a, b with VObj _, VObj _ -> () | _ -> raise Bad);
+  let (zm, seen) = hrun leaf_h (history_ops code b) (members a) [] in
+  let z = VObj zm in
+  let t1 = tbuild leaf_h leaf_eqb (kv_of (fill @ [b])) in
+  let t2 = tbuild leaf_h leaf_eqb (kv_of (fill @ [z])) in
+  let t3 = tbuild leaf_h leaf_eqb (kv_of (fill @ [z; b])) in
+  Printf.sprintf "HH %s %s EQ %s OPS %s F %s %s %d LH %s" (hex_of_n (last seen)) (hex_of_n (mhash b))
+    (b01 (meq z b)) (ops_str (model_ops z b))
+    (b01 (tfind leaf_h leaf_eqb t1 z <> None)) (b01 (tfind leaf_h leaf_eqb t2 b <> None)) (List.length t3) (lh_of [a; b])
+(* the SPEC: after the history the object's member tuple is b's, so it is equal to a fresh b, hashes like it,
+   is found where a fresh b is stored and makes a fresh b found *)
+let history_oracle code sa sb sf obs =
+  match words obs with
+  | ["HH"; hz; hy; "EQ"; e; "OPS"; o; "F"; f1; f2; size; "LH"; _] ->
+      let b = parse_value sb and fill = parse_values sf in
+      ignore (parse_value sa); ignore (history_ops code b);
+      hz = hy && e = "1" && o = ops_str (spec_ops b b) && f1 = "1" && f2 = "1"
+      && int_of_string size = int_of_nat (spec_distinct leaf_eqb (fill @ [b]))
+  | _ -> false
+
 (* ------------------------------------------------------------------ C20 *)
 let ints_of_wire w = if w = "." then [] else List.map int_of_string (String.split_on_char ',' w)
 let wire_of_ints l = if l = [] then "." else String.concat "," (List.map string_of_int l)
@@ -232,6 +270,7 @@ let model (w : string list) : string =
         else
           Printf.sprintf "M %d %s" (List.length t)
             (if probes = [] then "." else String.concat "," (List.map (fun y -> match look y with None -> "-" | Some i -> string_of_int (int_of_nat i)) probes))
+    | ["h"; ("P" | "Q"); code; sa; sb; sf] -> history_model code sa sb sf
     | ["a"; "SQ"; sx] ->
         let x = parse_value sx in
         (match x with VPtr _ -> Printf.sprintf "A 1 %s %s" (hex_of_n (mhash x)) (hex_of_n (mhash x)) | _ -> "BADCASE")
@@ -266,6 +305,7 @@ let oracle (w : string list) (obs : string) : bool =
       int_of_string size = int_of_nat (spec_distinct leaf_eqb ins)
       && idx = (if probes = [] then "." else String.concat "," (List.map (fun y ->
                   match spec_lookup leaf_eqb (kv_of ins) y with None -> "-" | Some i -> string_of_int (int_of_nat i)) probes))
+  | ["h"; ("P" | "Q"); code; sa; sb; sf], _ -> history_oracle code sa sb sf obs
   | ["a"; "SQ"; _], ["A"; e; hx; hy] -> e = "1" && hx = hy
   | [("en" | "rv") as a; kind; mode; elems], _ -> iter_oracle (a = "en") kind mode (ints_of_wire elems) obs
   | _ -> false
